@@ -26,6 +26,7 @@ structure DState where
   pr : Proc := { fs := initFS, cwd := targetPos, umask := 18 }
   w : Writer := { flags := {} }
   tar : Bool := false
+  deep : Bool := false   -- monitor only: pathnames of PATH_MAX and more (predicate on the implementation's line)
 
 /-! ### snapshot (executable only) -/
 
@@ -43,8 +44,12 @@ partial def countRefs (ino : Nat) : Tree → Nat
 
 def strLt (a b : List Nat) : Bool := strGt b a
 
+/-- A path in a snapshot: hex, or "#<length>.<fnv>" when longer than 200 bytes (as harness/xtr_tree.h). -/
+def pathStr (rel : List Nat) : String :=
+  if rel.length > 200 then s!"#{rel.length}.{hex16 (LA.fnv1a rel)}" else LA.toHex rel
+
 def descr (fs : FS) (rel : List Nat) (t : Tree) : String :=
-  " " ++ LA.toHex rel ++ ":" ++
+  " " ++ pathStr rel ++ ":" ++
   match t with
   | .dir m mt _ => s!"d:{octal m}:{mtStr mt}"
   | .file i => match fs.files i with
@@ -142,7 +147,7 @@ def parseFlags (ws : List String) : XFlags :=
 
 def stepXtr (s : DState) (op obs : String) : DState × String :=
   match LA.words op with
-  | ["mode", m] => ({ s with tar := m == "tar" }, "ok")
+  | ["mode", m] => ({ s with tar := m == "tar", deep := m == "deepmon" }, "ok")
   | "opts" :: ws =>
     let fl := parseFlags ws
     ({ s with w := { s.w with flags := fl } }, s!"ok flags={fl.bits}")
@@ -156,6 +161,11 @@ def stepXtr (s : DState) (op obs : String) : DState × String :=
     match parseKind k, LA.parseHex p, LA.parseHex l, parseOct m, t.toInt?, LA.parseHex d with
     | some k, some p, some l, some m, some t, some d =>
       if s.tar then (s, "q") else
+      if s.deep then
+        -- the property's predicate on what the implementation printed: refused is not fatal, cwd and umask as before
+        let okl := obs.endsWith "env=ok" && !((obs.splitOn " ").any fun w => w.endsWith "=fatal")
+        (s, if okl then obs else "h=<ok|warn|failed> … env=ok expected")
+      else
       let e : Entry := { kind := k, path := p, link := l, mode := m, mtime := t, data := d }
       let ((h, w), pr) := (header s.w e).run s.pr
       let cwd0 := s.pr.cwd; let um0 := s.pr.umask
@@ -165,10 +175,12 @@ def stepXtr (s : DState) (op obs : String) : DState × String :=
         else ("-", pr)
       let ((f, w), pr) := (finishEntry w).run pr
       let env := if pr.cwd ≠ cwd0 then "cwd" else if pr.umask ≠ um0 then "umask" else "ok"
+      -- the harness chdir()s back between calls only in its own interest; the model keeps what the writer left
       ({ s with pr := pr, w := w }, s!"h={h.str} d={dst} f={f.str} env={env}")
     | _, _, _, _, _, _ => (s, "bad-op")
   | ["close"] =>
-    if s.tar then
+    if s.deep then (s, if obs.endsWith "env=ok" && !((obs.splitOn " ").any fun w => w.endsWith "=fatal") then obs else "c=<st> fr=<st> env=ok expected")
+    else if s.tar then
       -- monitor: bsdtar must finish normally (exit 0, or 1 = some entries refused)
       let okc := obs.startsWith "tar=ok " || obs.startsWith "tar=warn "
       (s, if okc then obs else "tar=<ok|warn> expected")
@@ -178,7 +190,7 @@ def stepXtr (s : DState) (op obs : String) : DState × String :=
       let env := if pr.cwd ≠ cwd0 then "cwd" else if pr.umask ≠ um0 then "umask" else "ok"
       ({ s with pr := pr, w := w }, s!"c={c.str} fr=ok env={env}")
   | ["snap"] =>
-    if s.tar then (s, if (obs.splitOn " | ").getLast? == some "canary=ok" then obs else "canary=ok expected")
+    if s.tar || s.deep then (s, if (obs.splitOn " | ").getLast? == some "canary=ok" then obs else "canary=ok expected")
     else (s, snapshot s.pr.fs)
   | _ => (s, "bad-op")
 
@@ -195,7 +207,7 @@ def stepPath (s : DState) (op _obs : String) : DState × String :=
   match LA.words op with
   | ["clean", nd, na, p] =>
     match LA.parseHex p with
-    | some p => (s, showRes (cleanup { nodotdot := nd == "1", noabs := na == "1" } p))
+    | some p => (s, showRes (cleanupLiteral { nodotdot := nd == "1", noabs := na == "1" } p))
     | none => (s, "bad-op")
   | ["strip", p] =>
     match LA.parseHex p with
